@@ -72,17 +72,36 @@ impl LazyParameters {
     ///
     /// A mutex guard containing a reference to the parameters store
     pub fn get(&self) -> std::sync::MutexGuard<'_, Option<ParametersStore>> {
+        #[cfg(feature = "verif_hooks")]
+        crate::verif_trace::record("once-enter", "PARAM");
         self.init.call_once(|| {
+            #[cfg(feature = "verif_hooks")]
+            crate::verif_trace::record("init-begin", "PARAM");
             let m = ParametersStore::new([
                 BLANK,
                 LHS,
                 RHS,
             ]);
             *self.data.lock().unwrap() = Some(m);
+            #[cfg(feature = "verif_hooks")]
+            crate::verif_trace::record("init-end", "PARAM");
         });
         // A panic in a caller that held the guard must not make the registry
         // unusable for everyone else: recover the guard from a poisoned lock.
+        #[cfg(feature = "verif_hooks")]
+        {
+            let guard = self.data.lock().unwrap_or_else(std::sync::PoisonError::into_inner);
+            crate::verif_trace::record("locked", "PARAM");
+            return guard;
+        }
+        #[allow(unreachable_code)]
         self.data.lock().unwrap_or_else(std::sync::PoisonError::into_inner)
+    }
+
+    #[cfg(feature = "verif_hooks")]
+    #[doc(hidden)]
+    pub fn verif_is_locked(&self) -> bool {
+        self.data.try_lock().is_err()
     }
 }
 
